@@ -457,23 +457,14 @@ fn check_superdomain(name: &Name, w: &[u8]) {
 }
 
 // @harness props=C16 tier=quick mem=6 t=1200 fn="Name::superdomain,new_boxed_name,Name::initialize_into"
-//   bound="every valid name of wire length <= 5 (all shapes, every octet value), every skip count (usize); the result is checked through its private representation (label count, offsets, wire); unwind 7"
-//   sym="buf:[u8;5], len<=5, skip:usize"
-#[kani::proof]
-#[kani::unwind(7)]
-fn c16_superdomain_w5() {
-    let st = any_name::<5>();
-    check_superdomain(st.name(), st.wire());
-}
-
-// @harness props=C16 tier=thorough mem=10 t=2400 fn="Name::superdomain,new_boxed_name,Name::initialize_into"
-//   bound="every valid name of wire length <= 7 (all shapes incl. 2 labels x 2 octets and 3 labels, every octet value), every skip count (usize); unwind 9"
-//   sym="buf:[u8;7], len<=7, skip:usize"
+//   bound="all 7 shapes with <= 2 non-root labels of 1..=2 octets (and the root), every octet value, every skip count (usize); the result is checked through its private representation (label count, offsets, wire); unwind 9"
+//   sym="shape<7, o:[u8;4], skip:usize"
 #[kani::proof]
 #[kani::unwind(9)]
-fn c16_superdomain_w7() {
-    let st = any_name::<7>();
-    check_superdomain(st.name(), st.wire());
+fn c16_superdomain_2x2() {
+    let o: [u8; 4] = kani::any();
+    let s = any_shape(SHAPES);
+    with_stack(s, &o, |st| check_superdomain(st.name(), st.wire()));
 }
 
 fn check_make_lowercase(st: &Stack) {
@@ -521,15 +512,16 @@ fn check_lowercase_name(name: &Name, w: &[u8]) {
 }
 
 // @harness props=C16 tier=quick mem=6 t=1200 fn="<Name as ToOwned>::to_owned,<Box<LowercaseName> as From<Box<Name>>>::from,<Box<Name> as From<Box<LowercaseName>>>::from,<LowercaseName as Deref>::deref,Name::make_ascii_lowercase"
-//   bound="every valid name of wire length <= 5 (all shapes), every octet value; unwind 7"
-//   sym="buf:[u8;5], len<=5"
+//   bound="all 7 shapes with <= 2 non-root labels of 1..=2 octets (and the root), every octet value; unwind 9"
+//   sym="shape<7, o:[u8;4]"
 #[kani::proof]
-#[kani::unwind(7)]
-fn c16_lowercase_name_w5() {
-    let st = any_name::<5>();
-    check_lowercase_name(st.name(), st.wire());
-    kani::cover!(st.wl == 5 && st.n == 3 && st.bytes[1 + st.n + 1] == b'Q', "two labels, upper-case letter");
-    kani::cover!(st.wl == 5 && st.n == 2, "one three-octet label");
+#[kani::unwind(9)]
+fn c16_lowercase_name_2x2() {
+    let o: [u8; 4] = kani::any();
+    let s = any_shape(SHAPES);
+    with_stack(s, &o, |st| check_lowercase_name(st.name(), st.wire()));
+    kani::cover!(s == 6 && o[0] == b'Q' && o[3] == b'Z', "two labels, upper-case letters");
+    kani::cover!(s == 2 && o[0] == b'@' && o[1] == b'[', "neighbours of the upper-case range");
 }
 
 // --------------------------------------------------------------------------
@@ -801,19 +793,50 @@ fn c16_cmp_transitive_w7() {
 // (a) Display -> FromStr round trip
 // --------------------------------------------------------------------------
 
+/// A `fmt::Write` sink over a fixed buffer.  `to_string()` is
+/// `Display::fmt` into a `String`; the `String` (a growing heap buffer whose
+/// reallocation copies cost > 17 GB for a one-octet name, measured) is not the
+/// subject, `Display::fmt` is, so it is driven into this sink instead.
+struct Sink {
+    buf: [u8; 24],
+    len: usize,
+}
+
+impl fmt::Write for Sink {
+    fn write_str(&mut self, s: &str) -> fmt::Result {
+        let b = s.as_bytes();
+        let mut i = 0;
+        while i < b.len() {
+            if self.len >= self.buf.len() {
+                return Err(fmt::Error);
+            }
+            self.buf[self.len] = b[i];
+            self.len += 1;
+            i += 1;
+        }
+        Ok(())
+    }
+}
+
 fn roundtrip(w: &[u8]) {
-    let name = mk(w);
-    let text = name.to_string();
+    use std::fmt::Write;
+    // stack view: the label lengths are constants for the solver, so the
+    // rendering loops run exactly as often as the name has octets
+    let st = Stack::of(w);
+    let name = st.name();
+    let mut sink = Sink { buf: [0; 24], len: 0 };
+    let r = write!(sink, "{}", name);
+    assert!(r.is_ok(), "[C16] rendering a name does not fail");
+    // sound: the sink holds a concatenation of whole `&str`s
+    let text = unsafe { std::str::from_utf8_unchecked(&sink.buf[..sink.len]) };
     match text.parse::<Box<Name>>() {
         Ok(back) => {
             assert!(same(back.wire_repr(), w), "[C16] a rendered name parses back to the identical wire form");
-            assert!(back.len() == name.len(), "[C16] a rendered name parses back to the same number of labels");
+            assert!(back.len() == st.n, "[C16] a rendered name parses back to the same number of labels");
             std::mem::forget(back);
         }
         Err(_) => assert!(false, "[C16] a rendered name parses back"),
     }
-    std::mem::forget(text);
-    std::mem::forget(name);
 }
 
 fn special(o: u8) -> bool {
@@ -1037,43 +1060,29 @@ fn ref_utf8(b: &[u8]) -> bool {
     true
 }
 
-fn accept<const N: usize>() {
+/// Returns the text and, if it was accepted, the number of labels.
+fn accept<const N: usize>() -> ([u8; N], Option<usize>) {
     let bytes: [u8; N] = kani::any();
     kani::assume(ref_utf8(&bytes));
-    // sound: the octets are well-formed UTF-8 (assumed just above)
+    // sound: the octets are well-formed UTF-8 (assumed just above; ref_utf8
+    // was compared natively with std::str::from_utf8 on all 1..=4 octet inputs)
     let text = unsafe { std::str::from_utf8_unchecked(&bytes) };
     let want = ref_text_name(&bytes);
     let got = text.parse::<Box<Name>>();
+    let mut labels = None;
     match (&got, &want) {
         (Ok(name), Some(t)) => {
             assert!(same(name.wire_repr(), &t.wire[..t.len]), "[C16] FromStr yields the wire form the text denotes");
-            kani::cover!(true, "accepted");
-            if N >= 3 {
-                kani::cover!(bytes[0] == b'\\', "accepted a name that starts with an escape");
-            }
-            if N >= 5 {
-                kani::cover!(bytes[0] == b'\\' && bytes[1] == b'2', "accepted a decimal escape");
-            }
-            if N >= 4 {
-                kani::cover!(name.len() == 3, "accepted two labels");
-            }
+            labels = Some(name.len());
         }
-        (Err(_), None) => {
-            kani::cover!(true, "rejected");
-            if N >= 2 {
-                kani::cover!(bytes[N - 1] >= 0x80, "rejected non-ASCII text");
-                kani::cover!(bytes[0] == b'.', "rejected a leading dot");
-            }
-            if N >= 5 {
-                kani::cover!(bytes[0] == b'\\' && bytes[1] == b'2' && bytes[2] == b'5' && bytes[3] == b'6', "rejected \\256");
-            }
-        }
+        (Err(_), None) => {}
         (Ok(_), None) => assert!(false, "[C16] FromStr accepts text that is not an absolute name"),
         (Err(_), Some(_)) => assert!(false, "[C16] FromStr rejects an absolute name within the limits"),
     }
     if let Ok(name) = got {
         std::mem::forget(name);
     }
+    (bytes, labels)
 }
 
 // @harness props=C16 tier=quick mem=3 t=600 fn="<Box<Name> as FromStr>::from_str,parse_escape,NameBuilder::try_push,NameBuilder::next_label,NameBuilder::finish"
@@ -1082,7 +1091,9 @@ fn accept<const N: usize>() {
 #[kani::unwind(4)]
 fn c16_fromstr_len1() {
     assert!("".parse::<Box<Name>>().is_err(), "[C16] FromStr rejects the empty text");
-    accept::<1>();
+    let (b, ok) = accept::<1>();
+    kani::cover!(ok == Some(1) && b[0] == b'.', "accepted the root");
+    kani::cover!(ok.is_none() && b[0] == b'a', "rejected a relative name");
 }
 
 // @harness props=C16 tier=quick mem=4 t=900 fn="<Box<Name> as FromStr>::from_str,parse_escape,NameBuilder::try_push,NameBuilder::next_label,NameBuilder::finish"
@@ -1090,7 +1101,11 @@ fn c16_fromstr_len1() {
 #[kani::proof]
 #[kani::unwind(5)]
 fn c16_fromstr_len2() {
-    accept::<2>();
+    let (b, ok) = accept::<2>();
+    kani::cover!(ok == Some(2) && b[0] == b'*', "accepted *.");
+    kani::cover!(ok.is_none() && b[0] == b'.', "rejected a leading dot");
+    kani::cover!(ok.is_none() && b[0] == b'\\' && b[1] == b'.', "rejected an escaped final dot");
+    kani::cover!(ok.is_none() && b[0] >= 0xc2, "rejected a two-octet character");
 }
 
 // @harness props=C16 tier=quick mem=6 t=1200 fn="<Box<Name> as FromStr>::from_str,parse_escape,NameBuilder::try_push,NameBuilder::next_label,NameBuilder::finish"
@@ -1098,7 +1113,12 @@ fn c16_fromstr_len2() {
 #[kani::proof]
 #[kani::unwind(6)]
 fn c16_fromstr_len3() {
-    accept::<3>();
+    let (b, ok) = accept::<3>();
+    kani::cover!(ok == Some(2) && b[0] == b'\\' && b[1] == b'.', "accepted the label \".\" written as an escape");
+    kani::cover!(ok == Some(2) && b[0] == b'\\' && b[1] == b'\\', "accepted an escaped backslash");
+    kani::cover!(ok.is_none() && b[1] == b'.' && b[2] == b'.', "rejected an empty label");
+    kani::cover!(ok.is_none() && b[0] == b'a' && b[1] >= 0x80, "rejected non-ASCII text");
+    kani::cover!(ok.is_none() && b[0] == b'\\' && b[1] == b'1', "rejected a truncated decimal escape");
 }
 
 // @harness props=C16 tier=quick mem=8 t=1800 fn="<Box<Name> as FromStr>::from_str,parse_escape,NameBuilder::try_push,NameBuilder::next_label,NameBuilder::finish"
@@ -1106,7 +1126,11 @@ fn c16_fromstr_len3() {
 #[kani::proof]
 #[kani::unwind(7)]
 fn c16_fromstr_len4() {
-    accept::<4>();
+    let (b, ok) = accept::<4>();
+    kani::cover!(ok == Some(3), "accepted two labels");
+    kani::cover!(ok == Some(2) && b[1] == b'\\' && b[2] == b'.', "accepted an escaped dot inside a label");
+    kani::cover!(ok.is_none() && b[0] == b'\\' && b[1] == b'0' && b[2] == b'0' && b[3] == b'0', "rejected a decimal escape without the final dot");
+    kani::cover!(ok.is_none() && b[0] >= 0xf0, "rejected a four-octet character");
 }
 
 // @harness props=C16 tier=thorough mem=10 t=2400 fn="<Box<Name> as FromStr>::from_str,parse_escape,NameBuilder::try_push,NameBuilder::next_label,NameBuilder::finish"
@@ -1114,7 +1138,10 @@ fn c16_fromstr_len4() {
 #[kani::proof]
 #[kani::unwind(8)]
 fn c16_fromstr_len5() {
-    accept::<5>();
+    let (b, ok) = accept::<5>();
+    kani::cover!(ok == Some(2) && b[0] == b'\\' && b[1] == b'2' && b[2] == b'5' && b[3] == b'5', "accepted \\255.");
+    kani::cover!(ok.is_none() && b[0] == b'\\' && b[1] == b'2' && b[2] == b'5' && b[3] == b'6' && b[4] == b'.', "rejected \\256.");
+    kani::cover!(ok == Some(3), "accepted two labels");
 }
 
 // @harness props=C16 tier=thorough mem=12 t=3000 fn="<Box<Name> as FromStr>::from_str,parse_escape,NameBuilder::try_push,NameBuilder::next_label,NameBuilder::finish"
@@ -1122,93 +1149,96 @@ fn c16_fromstr_len5() {
 #[kani::proof]
 #[kani::unwind(9)]
 fn c16_fromstr_len6() {
-    accept::<6>();
+    let (b, ok) = accept::<6>();
+    kani::cover!(ok == Some(2) && b[0] == b'\\' && b[1] == b'0' && b[5] == b'.', "accepted a decimal escape followed by a plain octet");
+    kani::cover!(ok == Some(4), "accepted three labels");
+    kani::cover!(ok.is_none() && b[1] == b'\\' && b[2] == b'9' && b[5] == b'.', "rejected a decimal escape above 255 or malformed");
 }
 
 // --------------------------------------------------------------------------
-// (d) the 63 / 255 / 128 boundaries end to end through FromStr, concrete text
-//     (the general argument is the one-step induction in name_builder.rs)
+// Label / LabelBuf on their own (the public label API)
 // --------------------------------------------------------------------------
 
-/// Writes `count` labels of `l` octets ('x', or the escape \120 = 'x' when
-/// `escaped`) each followed by a dot; returns the new end.
-fn put_labels(buf: &mut [u8; 400], mut at: usize, count: usize, l: usize, escaped: bool) -> usize {
-    let mut c = 0;
-    while c < count {
-        let mut i = 0;
-        while i < l {
-            if escaped {
-                buf[at] = b'\\';
-                buf[at + 1] = b'1';
-                buf[at + 2] = b'2';
-                buf[at + 3] = b'0';
-                at += 4;
-            } else {
-                buf[at] = b'x';
-                at += 1;
-            }
-            i += 1;
-        }
-        buf[at] = b'.';
-        at += 1;
-        c += 1;
-    }
-    at
-}
-
-fn parses(buf: &[u8; 400], len: usize) -> Option<(usize, usize)> {
-    let text = match std::str::from_utf8(&buf[..len]) {
-        Ok(t) => t,
+fn label_of(buf: &[u8]) -> &Label {
+    match <&Label>::try_from(buf) {
+        Ok(l) => l,
         Err(_) => {
-            assert!(false, "harness text is ASCII");
-            return None;
+            assert!(false, "[C16] a slice of at most 63 octets is a label");
+            unreachable!()
         }
-    };
-    match text.parse::<Box<Name>>() {
-        Ok(n) => {
-            let r = (n.wire_repr().len(), n.len());
-            std::mem::forget(n);
-            Some(r)
-        }
-        Err(_) => None,
     }
 }
 
-// @harness props=C16 tier=quick mem=4 t=900 fn="<Box<Name> as FromStr>::from_str,NameBuilder::try_push,NameBuilder::next_label,NameBuilder::finish"
-//   bound="6 concrete texts at the limits: one label of 63 / 64 octets (plain and as \\DDD escapes), labels 63+63+63+61 (255 octets) / 63+63+63+62 (256 octets); unwind 270"
-//   sym="none (concrete boundary cases)"
+// @harness props=C16 tier=quick mem=4 t=900 fn="<&Label as TryFrom<&[u8]>>::try_from,<Label as PartialEq>::eq,<Label as Ord>::cmp,<Label as PartialOrd>::partial_cmp,<Label as Hash>::hash,Label::octets,Label::len,Label::is_null,Label::is_asterisk"
+//   bound="every ordered pair of labels of 0..=4 octets each (symbolic lengths, every octet value); unwind 6"
+//   sym="x,y:[u8;4], lx,ly<=4"
 #[kani::proof]
-#[kani::unwind(270)]
-fn c16_fromstr_label_and_name_limits() {
-    let mut buf = [0u8; 400];
-    let n = put_labels(&mut buf, 0, 1, 63, false);
-    assert!(parses(&buf, n) == Some((65, 2)), "[C16] FromStr accepts a 63-octet label");
-    let n = put_labels(&mut buf, 0, 1, 64, false);
-    assert!(parses(&buf, n).is_none(), "[C16] FromStr rejects a 64-octet label");
-    let n = put_labels(&mut buf, 0, 1, 63, true);
-    assert!(parses(&buf, n) == Some((65, 2)), "[C16] FromStr accepts a 63-octet label written with escapes");
-    let n = put_labels(&mut buf, 0, 1, 64, true);
-    assert!(parses(&buf, n).is_none(), "[C16] FromStr rejects a 64-octet label written with escapes");
-    let n = put_labels(&mut buf, 0, 3, 63, false);
-    let n = put_labels(&mut buf, n, 1, 61, false);
-    assert!(parses(&buf, n) == Some((255, 5)), "[C16] FromStr accepts a 255-octet name");
-    let n = put_labels(&mut buf, 0, 3, 63, false);
-    let n = put_labels(&mut buf, n, 1, 62, false);
-    assert!(parses(&buf, n).is_none(), "[C16] FromStr rejects a 256-octet name");
-    kani::cover!(true, "all boundary texts parsed");
+#[kani::unwind(6)]
+fn c16_label_pair_len4() {
+    let x: [u8; 4] = kani::any();
+    let y: [u8; 4] = kani::any();
+    let lx: usize = kani::any();
+    let ly: usize = kani::any();
+    kani::assume(lx <= 4 && ly <= 4);
+    let (x, y) = (&x[..lx], &y[..ly]);
+    let a = label_of(x);
+    let b = label_of(y);
+    assert!(same(a.octets(), x) && a.len() == lx, "[C16] a label holds the octets it was made from");
+    assert!(a.is_null() == (lx == 0), "[C16] is_null() exactly for the empty label");
+    assert!(a.is_asterisk() == (lx == 1 && x[0] == b'*'), "[C16] is_asterisk() exactly for the label *");
+    let eq = a == b;
+    assert!(eq == same_nocase(x, y), "[C16] labels are equal exactly when their lower-cased octets are");
+    let c = a.cmp(b);
+    assert!(c == ref_label_cmp(x, y), "[C16] Label::cmp is the RFC 4034 section 6.1 label order");
+    assert!(b.cmp(a) == c.reverse(), "[C16] Label::cmp is antisymmetric");
+    assert!((c == Ordering::Equal) == eq, "[C16] Label::cmp is Equal exactly for equal labels");
+    assert!(a.partial_cmp(b) == Some(c), "[C16] Label::partial_cmp agrees with cmp");
+    let mut ha = Rec::new();
+    a.hash(&mut ha);
+    let mut hb = Rec::new();
+    b.hash(&mut hb);
+    assert!(same(ha.bytes(), hb.bytes()) == eq, "[C16] labels feed the hasher the same octets exactly when equal");
+    kani::cover!(eq && !same(x, y) && lx == 4, "equal labels that differ in letter case");
+    kani::cover!(c == Ordering::Less && lx > ly, "longer label sorts first");
+    kani::cover!(c == Ordering::Less && lx < ly && lx > 0 && lc(x[0]) == lc(y[0]), "proper prefix sorts first");
+    kani::cover!(c == Ordering::Greater && x[0] >= 0x80 && lx > 0 && ly > 0, "octets compare unsigned");
 }
 
-// @harness props=C16 tier=quick mem=4 t=900 fn="<Box<Name> as FromStr>::from_str,NameBuilder::try_push,NameBuilder::next_label,NameBuilder::finish"
-//   bound="2 concrete texts: 127 one-octet labels (255 octets, 128 labels) / 128 one-octet labels (257 octets); unwind 270"
-//   sym="none (concrete boundary cases)"
+// @harness props=C16 tier=quick mem=4 t=900 fn="<LabelBuf as From<&[u8; N]>>::from,<LabelBuf as TryFrom<&[u8]>>::try_from,<&Label as TryFrom<&[u8]>>::try_from,<LabelBuf as Deref>::deref,<Label as ToOwned>::to_owned,<LabelBuf as PartialEq>::eq,<LabelBuf as Ord>::cmp,<LabelBuf as Hash>::hash"
+//   bound="LabelBuf of 2 and 3 symbolic octets (every octet value) against the Label results; length limit at 63 / 64 octets (concrete zero-filled slices, symbolic length <= 70 for &Label); unwind 66"
+//   sym="x:[u8;2], y:[u8;3], n<=70"
 #[kani::proof]
-#[kani::unwind(270)]
-fn c16_fromstr_label_count_limit() {
-    let mut buf = [0u8; 400];
-    let n = put_labels(&mut buf, 0, 127, 1, false);
-    assert!(parses(&buf, n) == Some((255, 128)), "[C16] FromStr accepts 127 labels plus the root");
-    let n = put_labels(&mut buf, 0, 128, 1, false);
-    assert!(parses(&buf, n).is_none(), "[C16] FromStr rejects 128 labels plus the root");
-    kani::cover!(true, "both boundary texts parsed");
-}
+#[kani::unwind(66)]
+fn c16_labelbuf() {
+    let x: [u8; 2] = kani::any();
+    let y: [u8; 3] = kani::any();
+    let a = LabelBuf::from(&x);
+    let b = LabelBuf::from(&y);
+    assert!(same(a.octets(), &x), "[C16] a LabelBuf holds the octets it was made from");
+    assert!(same(b.octets(), &y), "[C16] a LabelBuf holds the octets it was made from");
+    let (la, lb) = (label_of(&x), label_of(&y));
+    assert!((a == b) == (la == lb), "[C16] LabelBuf equality is Label equality");
+    assert!(a.cmp(&b) == la.cmp(lb), "[C16] LabelBuf order is Label order");
+    assert!(a.cmp(&b) == ref_label_cmp(&x, &y), "[C16] LabelBuf order is the RFC 4034 label order");
+    let mut h1 = Rec::new();
+    a.hash(&mut h1);
+    let mut h2 = Rec::new();
+    la.hash(&mut h2);
+    assert!(same(h1.bytes(), h2.bytes()), "[C16] a LabelBuf hashes like its Label");
+    let owned = lb.to_owned();
+    assert!(same(owned.octets(), &y), "[C16] Label::to_owned() keeps the octets");
 
+    // length limit
+    let zeros = [0u8; 70];
+    let n: usize = kani::any();
+    kani::assume(n <= 70);
+    assert!(
+        <&Label>::try_from(&zeros[..n]).is_ok() == (n <= 63),
+        "[C16] a label has at most 63 octets"
+    );
+    assert!(LabelBuf::try_from(&zeros[..63]).is_ok(), "[C16] a LabelBuf takes 63 octets");
+    assert!(LabelBuf::try_from(&zeros[..64]).is_err(), "[C16] a LabelBuf rejects 64 octets");
+    kani::cover!(n == 63, "63-octet label");
+    kani::cover!(n == 64, "64-octet slice");
+    kani::cover!(x[0] == b'A' && y[0] == b'a' && x[1] == y[1], "prefix up to case");
+}
